@@ -334,6 +334,46 @@ func c19Config(run *evid.Run, cfg Cfg, ca, rogue *rig.CA, ci int, noCA bool) {
 			run.Sample(map[string]any{"caller": c.Kind, "outcomes": outs[:4]})
 		}
 	}
+	// The identity belongs to the connection it was verified on: after a permitted client disconnects, an
+	// unpermitted client connecting from the very same source address and port must still be itself.
+	if !noCA {
+		srcPort := rig.FreePort("127.0.0.1")
+		reused := 0
+		for round := 0; round < 3; round++ {
+			connA, err := rig.DialFromPort(d.Addr, rig.ClientTLS(ca, permitted), "127.0.0.1", srcPort)
+			if err != nil {
+				break
+			}
+			ctx, cancel := context.WithTimeout(context.Background(), 5*time.Second)
+			ra, erra := pb.NewListerClient(connA).ListAccounts(ctx, &pb.ListAccountsRequest{Paths: []string{"Wallet1"}})
+			cancel()
+			connA.Close()
+			if erra != nil || len(ra.GetAccounts()) == 0 {
+				break
+			}
+			time.Sleep(50 * time.Millisecond)
+			connB, err := rig.DialFromPort(d.Addr, rig.ClientTLS(ca, unpermitted), "127.0.0.1", srcPort)
+			if err != nil {
+				break
+			}
+			ctx, cancel = context.WithTimeout(context.Background(), 5*time.Second)
+			rb, errb := pb.NewListerClient(connB).ListAccounts(ctx, &pb.ListAccountsRequest{Paths: []string{"Wallet1"}})
+			rs, errs := pb.NewSignerClient(connB).Sign(ctx, &pb.SignRequest{Id: &pb.SignRequest_Account{Account: "Wallet1/acct13"}, Data: Root32(1), Domain: Dom([]byte{9, 0, 0, 0}, 1)})
+			cancel()
+			connB.Close()
+			if errb != nil && errs != nil {
+				continue // could not connect from the same port this time
+			}
+			reused++
+			run.Eval(1)
+			if len(rb.GetAccounts()) > 0 || len(rs.GetSignature()) > 0 {
+				run.Violate(fmt.Sprintf("an unpermitted client connecting from the source port a permitted client had just used was served (accounts listed: %d, signature: %v)", len(rb.GetAccounts()), len(rs.GetSignature()) > 0), nil)
+			}
+			time.Sleep(50 * time.Millisecond)
+		}
+		run.Count("source_port_reuse_rounds", reused)
+		run.Distinct(fmt.Sprintf("source port reused by another client: %v", reused > 0))
+	}
 	// The daemon must still be alive and serve the permitted client.
 	if !d.Alive() {
 		run.Violate("daemon died during the credential matrix: "+d.LogTail(800), nil)
